@@ -326,7 +326,7 @@ func LargeCFG(r *rand.Rand) *PGrammar {
 	stmts := nonterm("Stmts")
 	stmt := nonterm("Stmt")
 	block := nonterm("Block")
-	levels := 5 + r.Intn(5)
+	levels := 6 + r.Intn(4)
 	exprs := make([]int, levels)
 	for i := range exprs {
 		exprs[i] = nonterm(fmt.Sprintf("E%d", i))
